@@ -326,8 +326,24 @@ func c19Check(a c19Agg, ms []int, rows []aggRow) []string {
 	return o
 }
 
+// Item runs one multiset in both scan orders: an aggregation summarises a multiset of rows, so the order in
+// which the store happens to return them (here: the id order) must not matter, and a defect that depends on
+// which row comes first (a loop that stops at the first odd value, say) needs the odd value first.
 func (w *c19Worker) Item(idx int, emit func(vf.Violation), st sweep.Stats, sample func(string)) {
+	w.item(idx, false, emit, st, sample)
+	if len(w.multisets[idx]) >= 2 {
+		w.item(idx, true, emit, st, sample)
+	}
+}
+
+func (w *c19Worker) item(idx int, reversed bool, emit func(vf.Violation), st sweep.Stats, sample func(string)) {
 	ms := w.multisets[idx]
+	if reversed {
+		ms = append([]int{}, ms...)
+		for i, j := 0, len(ms)-1; i < j; i, j = i+1, j-1 {
+			ms[i], ms[j] = ms[j], ms[i]
+		}
+	}
 	kv := memkv.New()
 	db := kvgraph.NewKVGraph(kv)
 	db.AddGraph("g")
@@ -357,6 +373,9 @@ func (w *c19Worker) Item(idx int, emit func(vf.Violation), st sweep.Stats, sampl
 		res := qrun.Run(gi.Compiler(), q.Statements, 20*time.Second)
 		st["runs"]++
 		desc := fmt.Sprintf("V().aggregate(%s) over %s", strings.Join(names, ","), w.Describe(idx))
+		if reversed {
+			desc += " stored in reverse order"
+		}
 		if res.CompileErr != nil {
 			emit(vf.Violation{Sig: "rejected|" + strings.Join(names, "+"), Detail: desc + ": " + res.CompileErr.Error(), Replay: desc})
 			continue
@@ -427,7 +446,7 @@ func C19(tier string, args []string) int {
 	run.Coverage["undecided_timeouts"] = res.Stats["undecided_timeouts"]
 	run.Coverage["worker_crashes"] = res.Crashes
 	run.Coverage["exhaustive"] = !res.DeadlineHit && res.Done >= w.N()
-	run.Coverage["rule"] = "every multiset up to the size bound over 10 field values x (10 aggregation instances alone + all 45 pairs in one step); non-trivial = run that returned at least one aggregation row"
+	run.Coverage["rule"] = "every multiset up to the size bound over 10 field values, stored in both scan orders, x (10 aggregation instances alone + all 45 pairs in one step); non-trivial = run that returned at least one aggregation row"
 	s := res.Samples
 	if len(s) == 0 {
 		s = []string{"V().aggregate(term) over " + w.Describe(len(w.multisets)/2)}
